@@ -436,7 +436,8 @@ func (w *jobWorld) envEnabled() []string {
 				out = append(out, "u:kill:"+short+":"+off)
 			}
 		}
-		if s.Unkill && w.mem.UnkillUsed < 1 && rj.Spec.KillTimestamp != nil && rj.DeletionTimestamp == nil {
+		// (not at the exact instant of the kill time: with whole-second clocks that boundary is a model artefact)
+		if s.Unkill && w.mem.UnkillUsed < 1 && rj.Spec.KillTimestamp != nil && rj.DeletionTimestamp == nil && !rj.Spec.KillTimestamp.Time.Equal(w.Now()) {
 			out = append(out, "u:unkill:"+short)
 		}
 		if s.DeleteJob && rj.DeletionTimestamp == nil && !w.mem.Deleted[jk] {
